@@ -253,6 +253,12 @@ class Sim:
             cols = {k.upper(): [D(x) for x in v] for k, v in w["prices"].items()}
             pidx = self.index if "price_index" not in w else pd.DatetimeIndex([pd.Timestamp(t) for t in w["price_index"]])
             pdf = pd.DataFrame(cols, index=pidx)
+            # token prices the user derives from a market's own data with the market's helper (the documented way for
+            # option markets: `actuator.set_price(market.get_price_from_data())`), here per token: {"ETH": "drb0"}
+            for tok, mname in (w.get("prices_from") or {}).items():
+                got = self.markets[mname].get_price_from_data()
+                col = got[tok] if isinstance(got, pd.DataFrame) else got
+                pdf[tok] = col.reindex(pdf.index)
             if "__prices__" in self.prebuilt:
                 pdf = self.prebuilt["__prices__"]
             self.fed["__prices__"] = pdf
